@@ -264,12 +264,10 @@ func (e *ExecutorV3) RunTx(context state.Interface, rawTx []byte, rewardPool *bi
 				if balance.Cmp(commission) == -1 {
 					commission = big.NewInt(0).Set(balance)
 					if isGasCommissionFromPoolSwap {
-						if !commissions.Coin.IsBaseCoin() {
-							var resp *Response
-							resp, commissionInBaseCoin, _ = CheckSwap(commissionPoolSwapper, checkState.Coins().GetCoin(tx.CommissionCoin()), checkState.Coins().GetCoin(0), commission, big.NewInt(0), false)
-							if resp != nil {
-								return *resp
-							}
+						var resp *Response
+						resp, commissionInBaseCoin, _ = CheckSwap(commissionPoolSwapper, checkState.Coins().GetCoin(tx.CommissionCoin()), checkState.Coins().GetCoin(0), commission, big.NewInt(0), false)
+						if resp != nil {
+							return *resp
 						}
 						if commissionInBaseCoin == nil || commissionInBaseCoin.Sign() != 1 {
 							return Response{
